@@ -3,8 +3,9 @@ EXTENDS StrIndex, Json, IOUtils, SequencesExt
 CONSTANTS MaxChars
 MCStrs  == StrsUpTo({CA, CNT, CSQRT, CCRAB}, MaxChars)
 MCExtra == {126, 127, 128, 129, 254, 255}
-Vec(o, ss, x, y) == [m |-> "StrIndex", op |-> o, s |-> ss, a |-> x, b |-> y, exp |-> Ref(o, ss, x, y)]
-Vectors == {Vec(o, ss, x, 0) : o \in Ops1, ss \in MCStrs, x \in 0..18 \cup MCExtra}
-Vectors2 == UNION {{Vec(o, ss, x, y) : o \in Ops2, x \in IdxOf(ss), y \in IdxOf(ss)} : ss \in MCStrs}
-Emit == ndJsonSerialize(IOEnv.OUT, SetToSeq({v \in Vectors : v.a \in IdxOf(v.s)} \cup Vectors2))
+Vec(k) == [m |-> "StrIndex", op |-> k[1], s |-> k[2], a |-> k[3], b |-> k[4], exp |-> Ref(k[1], k[2], k[3], k[4])]
+\* keys are homogeneous tuples (cheap to normalise); the heterogeneous records are built as a sequence
+Keys == UNION {{<<o, ss, x, 0>> : o \in Ops1, x \in IdxOf(ss)} : ss \in MCStrs}
+          \cup UNION {{<<o, ss, x, y>> : o \in Ops2, x \in IdxOf(ss), y \in IdxOf(ss)} : ss \in MCStrs}
+Emit == LET ks == SetToSeq(Keys) IN ndJsonSerialize(IOEnv.OUT, [i \in 1..Len(ks) |-> Vec(ks[i])])
 =============================================================================
